@@ -19,7 +19,25 @@ def J(name, wl, quick, thorough, **params):
     return d
 
 
+def wrappers(mode, names, quick, thorough, **kw):
+    return [J("%s.%s" % (n, mode), "wl_" + n, quick, thorough, mode=mode, **kw) for n in names]
+
+
 PROPS = {
+    "C01": {"jobs": wrappers("excl", ["guarded", "guarded_opt", "shared_guarded",
+                                      "shared_guarded_opt", "ordered_guarded"], 100000, 2500000)},
+    "C02": {"jobs": wrappers("rw", ["shared_guarded", "shared_guarded_opt", "ordered_guarded",
+                                    "deferred_rw"], 100000, 2500000) +
+            wrappers("rdv", ["shared_guarded", "shared_guarded_opt", "ordered_guarded",
+                             "deferred_rw"], 20000, 300000)},
+    "C08": {"jobs": wrappers("handle", ["guarded", "guarded_opt", "shared_guarded",
+                                        "shared_guarded_opt", "ordered_guarded", "deferred_rw"],
+                             80000, 2000000) +
+            [J("guarded_opt.disabled", "wl_guarded_opt", 40000, 600000, mode="handle", disabled=1),
+             J("shared_guarded_opt.disabled", "wl_shared_guarded_opt", 40000, 600000,
+               mode="handle", disabled=1)]},
+    "C15": {"jobs": wrappers("reg", ["atomic_guarded", "guarded", "guarded_opt", "ordered_guarded",
+                                     "deferred_rw"], 100000, 2500000)},
     "C03": {"jobs": [J("lr.std", "wl_lr", 200000, 6000000, mode="std")]},
     "C14": {"jobs": [J("lr.freeze", "wl_lr", 60000, 1500000, mode="freeze"),
                      J("lr.overlap", "wl_lr", 20000, 500000, mode="overlap")]},
